@@ -68,7 +68,10 @@ func startDNS(t *testing.T) func() {
 		var d net.Dialer
 		return d.DialContext(ctx, "udp", addr)
 	}}
-	return func() { net.DefaultResolver = saved; _ = srv.Shutdown() }
+	_ = saved
+	// net.DefaultResolver is left in place: a cache refresh of an attack that has not been told to stop may still
+	// be resolving, and writing the variable back would race with it (a race of this harness, not of the code under test)
+	return func() {}
 }
 
 type dialRec struct {
